@@ -61,6 +61,7 @@ class _Ctx:
         self.attempt_grows = 0
         self.attempt_fail_after = None
         self.added = set()
+        self.ligated = {}            # (topology molecule index, node added to the host) -> (ligand molecule, node)
         self.grown_from = {}
         self.ignored_mols = set()
         self.touched = set()
@@ -92,6 +93,9 @@ class _Ctx:
                 "ignored_present": bool(self.job["opts"].get("ignore"))}
         base.update(facts)
         self.viols.append(Violation(prop, clause, msg, seq=self.rec.seq, facts=base).to_json())
+        if prop == "C05" and self.ignored_mols and clause in ("step", "force", "floor"):
+            # the placement rules are broken for a built molecule while other molecules are ignored
+            self.fail("C04", "ignored.no-disturb", f"with ignored molecules present: {msg}", ignored_present=True)
 
     def _partially_supplied_cur(self):
         if not self.cur_attempt:
@@ -311,6 +315,11 @@ def _install(ctx):
         ctx.building = True
         ctx.stage = "build"
         ctx.rec.emit("stage", name="build")
+        # -lig: nodes added to a host molecule for its ligands (removed again after the build)
+        for ti, mol in enumerate(molecules):
+            for n in mol.nodes:
+                if "ligated" in mol.nodes[n]:
+                    ctx.ligated[(ti, n)] = tuple(mol.nodes[n]["ligated"])
         try:
             return real_run_system(self, molecules)
         finally:
